@@ -271,4 +271,39 @@ JointAlphaP(m, h) ==
   IF Len(h) = 0 THEN JointInitP(m)
   ELSE LET e == h[Len(h)] IN JointPostP(m, JointAlphaP(m, SubSeq(h, 1, Len(h) - 1)), e.a, e.o)
 JSumP(m, al) == PSumTo(TLCEval([n \in Nd(m) |-> PSumTo(al[n], m.N)]), m.NN)
+
+\* ---------------------------------------------------------------- values for a discount close to 1, symbolically
+\* Discounts such as 0.99995 make Cramer's integers leave 32 bits.  The discount is written 1 - d with a SYMBOLIC
+\* d, and the evaluation equations (episodes end at absorbing states, chain on the listed non-absorbing states)
+\*   CD x[n,s] - (1 - d) Sum_{k,t} coef(n,s,k,t) x[k,t] = OD ED rew(n,s)
+\* are solved by Cramer on polynomials in d (entries (CD [i=j] - c_ij) + c_ij d): x_i = num_i(d) / det(d) for
+\* EVERY d.  The harness evaluates the emitted polynomials exactly at d = 1/20000, 1/100000, ...
+PNeg(p) == [i \in 1..LP |-> -p[i]]
+SystemP(m) ==
+  LET pr == PairSeq(m, TRUE)
+      k  == Len(pr)
+  IN TLCEval([i \in 1..k |-> [j \in 1..(k + 1) |->
+        IF j = k + 1 THEN PLin(Safe(Safe(m.OD * m.ED) * RewN(m, pr[i][1], pr[i][2])), 0)
+        ELSE LET c == Coef(m, pr[i][1], pr[i][2], pr[j][1], pr[j][2])
+             IN PLin((IF i = j THEN CD(m) ELSE 0) - c, c)]])
+RECURSIVE DetP(_, _)
+DetP(mat, k) ==
+  IF k = 0 THEN PLin(1, 0)
+  ELSE IF k = 1 THEN mat[1][1]
+  ELSE PSumTo(TLCEval([c \in 1..k |->
+         IF PSign(mat[1][c]) = 0 THEN PZero
+         ELSE LET t == PMul(mat[1][c], DetP(Minor1(mat, k, c), k - 1))
+              IN IF Sign(1, c) = 1 THEN t ELSE PNeg(t)]), k)
+ValueSolveP(m) ==
+  LET pr  == PairSeq(m, TRUE)
+      k   == Len(pr)
+      sys == SystemP(m)
+      sq  == TLCEval([i \in 1..k |-> [j \in 1..k |-> sys[i][j]]])
+  IN [det |-> DetP(sq, k), num |-> TLCEval([c \in 1..k |-> DetP(WithCol(sys, k, c), k)]),
+      pairs |-> pr, sys |-> sys, k |-> k]
+\* the solution satisfies every equation as an identity in d, and the determinant is not the zero polynomial
+SolvesSystemP(vs) ==
+  /\ PSign(vs.det) # 0
+  /\ \A i \in 1..vs.k :
+        PSumTo(TLCEval([j \in 1..vs.k |-> PMul(vs.sys[i][j], vs.num[j])]), vs.k) = PMul(vs.sys[i][vs.k + 1], vs.det)
 =============================================================================
